@@ -207,6 +207,27 @@ def observe_graph(wn, lexid, g, lchD):
                         e[nm] = 'error'
                 pairs.append(e)
         d['pairs'] = pairs
+        # the Synset methods are shortcuts for the wn.taxonomy functions: same answers
+        bad = []
+        for i_, x in enumerate(ss):
+            for nm, got, ref in (('min_depth', x.min_depth(simulate_root=root), d['min'][i_]),
+                                 ('max_depth', x.max_depth(simulate_root=root), d['max'][i_]),
+                                 ('hypernym_paths', [[ix(s) for s in p] for p in x.hypernym_paths(simulate_root=root)], d['paths'][i_])):
+                if got != ref:
+                    bad.append([nm, i_, got, ref])
+        for a_ in range(n):
+            for b_ in range(n):
+                e = pairs[a_ * n + b_]
+                try:
+                    sp = [ix(s) for s in ss[a_].shortest_path(ss[b_], simulate_root=root)]
+                except wn.Error:
+                    sp = 'error'
+                for nm, got, ref in (('common_hypernyms', [ix(s) for s in ss[a_].common_hypernyms(ss[b_], simulate_root=root)], e['common']),
+                                     ('lowest_common_hypernyms', [ix(s) for s in ss[a_].lowest_common_hypernyms(ss[b_], simulate_root=root)], e['lowest']),
+                                     ('shortest_path', sp, e['sp'])):
+                    if got != ref:
+                        bad.append([nm, [a_, b_], got, ref])
+        d['shortcuts_bad'] = bad[:5]
         out[key] = d
     out['closure'] = [[ix(s) for s in x.closure('hypernym', 'instance_hypernym')] for x in ss]
     poss = []
